@@ -69,6 +69,26 @@ CLAIMED['C07'] = dict(
     design_ref="DESIGN.md §3 C07")
 
 NOT_APPLICABLE = {
+    'C08': 'every observation point (hash() into the global intern table, repr formatting, pyparsing regexes, pickle) is a C boundary that forces concretisation; nothing symbolic survives to be decided and what remains is example testing. Interning is moreover the one mechanism the symx engine replaces by its specification (DESIGN.md section 5)',
+    'C14': 'inputs flow through ~12k lines of table-driven per-architecture code (dict/bintree lookups keyed by instruction bits, per-field object graphs, pyparsing for text): a symbolic byte or token concretises at the first lookup, so a solver-based check degenerates into opcode enumeration/fuzzing (2^16..2^32 encodings per form), a different technique; the property is structural with no arithmetic relation for a solver to decide (DESIGN.md section 5)',
+    'C15': 'inputs flow through ~12k lines of table-driven per-architecture code (dict/bintree lookups keyed by instruction bits, per-field object graphs, pyparsing for text): a symbolic byte or token concretises at the first lookup, so a solver-based check degenerates into opcode enumeration/fuzzing (2^16..2^32 encodings per form), a different technique; the property is structural with no arithmetic relation for a solver to decide (DESIGN.md section 5)',
+    'C16': 'inputs flow through ~12k lines of table-driven per-architecture code (dict/bintree lookups keyed by instruction bits, per-field object graphs, pyparsing for text): a symbolic byte or token concretises at the first lookup, so a solver-based check degenerates into opcode enumeration/fuzzing (2^16..2^32 encodings per form), a different technique; the property is structural with no arithmetic relation for a solver to decide (DESIGN.md section 5)',
+    'C31': 'inputs flow through ~12k lines of table-driven per-architecture code (dict/bintree lookups keyed by instruction bits, per-field object graphs, pyparsing for text): a symbolic byte or token concretises at the first lookup, so a solver-based check degenerates into opcode enumeration/fuzzing (2^16..2^32 encodings per form), a different technique; the property is structural with no arithmetic relation for a solver to decide (DESIGN.md section 5)',
+    'C32': 'inputs flow through ~12k lines of table-driven per-architecture code (dict/bintree lookups keyed by instruction bits, per-field object graphs, pyparsing for text): a symbolic byte or token concretises at the first lookup, so a solver-based check degenerates into opcode enumeration/fuzzing (2^16..2^32 encodings per form), a different technique; the property is structural with no arithmetic relation for a solver to decide (DESIGN.md section 5)',
+    'C17': 'needs an independent disassembler, the host CPU or a reference emulator as oracle: differential testing against an artefact with no formal model (none installed besides objdump); not decidable by a solver (DESIGN.md section 5)',
+    'C18': 'needs an independent disassembler, the host CPU or a reference emulator as oracle: differential testing against an artefact with no formal model (none installed besides objdump); not decidable by a solver (DESIGN.md section 5)',
+    'C19': 'needs an independent disassembler, the host CPU or a reference emulator as oracle: differential testing against an artefact with no formal model (none installed besides objdump); not decidable by a solver (DESIGN.md section 5)',
+    'C20': 'whole-program emulation through CPython extension modules (JitCore_*.so, VmMngr.so), C code generated and compiled by gcc at run time, and llvmlite (absent): behind FFI, no symbolic engine available here reaches it (no CBMC/KLEE/ESBMC/angr). The expression-evaluation core it relies on is covered by C03 (DESIGN.md section 5)',
+    'C21': 'whole-program emulation through CPython extension modules (JitCore_*.so, VmMngr.so), C code generated and compiled by gcc at run time, and llvmlite (absent): behind FFI, no symbolic engine available here reaches it (no CBMC/KLEE/ESBMC/angr). The expression-evaluation core it relies on is covered by C03 (DESIGN.md section 5)',
+    'C22': 'whole-program emulation through CPython extension modules (JitCore_*.so, VmMngr.so), C code generated and compiled by gcc at run time, and llvmlite (absent): behind FFI, no symbolic engine available here reaches it (no CBMC/KLEE/ESBMC/angr). The expression-evaluation core it relies on is covered by C03 (DESIGN.md section 5)',
+    'C23': 'whole-program emulation through CPython extension modules (JitCore_*.so, VmMngr.so), C code generated and compiled by gcc at run time, and llvmlite (absent): behind FFI, no symbolic engine available here reaches it (no CBMC/KLEE/ESBMC/angr). The expression-evaluation core it relies on is covered by C03 (DESIGN.md section 5)',
+    'C49': 'whole-program emulation through CPython extension modules (JitCore_*.so, VmMngr.so), C code generated and compiled by gcc at run time, and llvmlite (absent): behind FFI, no symbolic engine available here reaches it (no CBMC/KLEE/ESBMC/angr). The expression-evaluation core it relies on is covered by C03 (DESIGN.md section 5)',
+    'C34': 'every get/set of the typed views goes through struct.pack/unpack and VmMngr (C extension): layouts are concrete per type definition and values concretise at the C boundary; nothing symbolic is left to decide (DESIGN.md section 5)',
+    'C35': 'the oracle is the platform ABI as implemented by GCC: compiler-differential testing, not a solver question; the layout code itself takes concrete type descriptions only (DESIGN.md section 5)',
+    'C41': "dynamic symbolic execution needs the jitter (FFI) running whole programs next to miasm's own solver use; the symbolic engine it builds on is covered by C12/C13 and the z3 translation by C05 (DESIGN.md section 5)",
+    'C42': 'struct-based (de)serialisation of whole files over Python bytes: every field concretises at struct.pack/unpack; the only solver-friendly clause (RVA/offset arithmetic inside a section) is too small a part of the property to claim it (DESIGN.md section 5)',
+    'C43': 'struct-based (de)serialisation of whole ELF files over Python bytes: every field concretises at struct.pack/unpack; nothing symbolic survives (DESIGN.md section 5)',
+    'C44': 'loading goes through struct parsing and the VmMngr C extension on files produced by a toolchain; inputs concretise immediately and the memory manager is behind FFI (DESIGN.md section 5)',
 }
 
 NOT_BUILT = "not built yet in this session (planned, see DESIGN.md §3); not claimed"
